@@ -1,6 +1,6 @@
 """Per-property claims rendered into MANIFEST.json by tools/mkmanifest.py."""
 HOOK_COMMITS = []   # no source hooks needed so far
-FIX_COMMITS = ["8acdda3 fix: cisco vlandb keeps VLANs of unchanged lines (C11)", "6c8c7e3 fix: huawei next_hop return (C14)", "42d8898 fix: arista large-community-list ACL (C14)", "9c40074 fix: refuse before emitting (C14)", "750ea7d fix: RouterOS join nested sections (C04)", "e01415d fix: optixtrans match expression (C18)", "12c75c5 fix: make_patch op order (C13)", "8c66073 fix: resolved pointers escaped (C13)", "4756b94 fix: huawei multi_all unchanged lines (C11)", "81e31d8 fix: implicit default block with its defaults (C17)", "5bfc12a fix: order_config word boundary (C08)", "943f14e fix: patch sort key (C08)", "1bcbbe1 fix: rewrite logic sends the new line ... (C01)", "28efb2a fix: file mode builds the patch from the complete diff (C16)", "c62ee59 fix: pool parent loop leaves only when the done queue is drained (C12)"]
+FIX_COMMITS = ["fe40c21 fix: cumulus refuses before emitting (C14)", "8acdda3 fix: cisco vlandb keeps VLANs of unchanged lines (C11)", "6c8c7e3 fix: huawei next_hop return (C14)", "42d8898 fix: arista large-community-list ACL (C14)", "9c40074 fix: refuse before emitting (C14)", "750ea7d fix: RouterOS join nested sections (C04)", "e01415d fix: optixtrans match expression (C18)", "12c75c5 fix: make_patch op order (C13)", "8c66073 fix: resolved pointers escaped (C13)", "4756b94 fix: huawei multi_all unchanged lines (C11)", "81e31d8 fix: implicit default block with its defaults (C17)", "5bfc12a fix: order_config word boundary (C08)", "943f14e fix: patch sort key (C08)", "1bcbbe1 fix: rewrite logic sends the new line ... (C01)", "28efb2a fix: file mode builds the patch from the complete diff (C16)", "c62ee59 fix: pool parent loop leaves only when the done queue is drained (C12)"]
 PENDING = {}
 CLAIMS = {
     "C14": {
@@ -210,3 +210,5 @@ _add("C02", "text", "MC_Pipeline: for every ACL of a catalogue rulebook's family
      "%ordered-block finding must violate Safe (anti-vacuity).")
 _add("C15", "text", "Three-device chains a1-b2-c3 (the middle device served by two rules with different name templates, plus decoy rules whose filter is false or whose regex template does not match) give one judged pair per link.")
 _add("C15", "note", "Two-device topologies and three-device chains; virtual and device rules are not driven.", replace="Two-device topologies only (3..5 devices, virtual rules and name-template filters are not built yet: stated in evidence assumptions).")
+_add("C14", "text", "The cumulus back-end (CumulusPolicyGenerator.generate_cumulus_rpl, one FRR stream) runs the same programs: error-before-emit per match/then call and every referenced list defined in the stream.")
+_add("C14", "note", "Vendors huawei, arista (all clauses) and cumulus (error-before-emit, references defined; no ACL / nesting there).", replace="Vendors huawei and arista; cumulus (generate_cumulus_rpl) not bound.")
